@@ -48,6 +48,9 @@ def props_for(module, kind, fn):
         return p
     if kind == 'bar':
         return ['C10']
+    if fn is not None and getattr(fn, 'delegated', False) and kind in ('value', 'range', 'degen'):
+        # Next<&T> impls whose clauses are, by definition, the Next<f64> clauses at the documented getter
+        return ['C10']
     if kind == 'value':
         return list(VALUE.get(short, []))
     if kind == 'range':
